@@ -12,11 +12,13 @@
     strip_is_norm_of_runs merge_only_unobservable_partial strip_only_whitespace_partial
     wsNorm_deletes_only_ws noescape_agree_html_vocab strip_namespace_witness
     preserve_table_is_spec noescape_table_is_spec
+    wsNorm_absorbs strip_only_whitespace_global_partial
 -/
 import Genshi.Lemmas.Output
 import Genshi.Lemmas.OutputFlatten
 import Genshi.Lemmas.OutputWs
 import Genshi.Lemmas.OutputWsDoctype
+import Genshi.Lemmas.OutputWsGlobal
 import Genshi.Model.OutputPipeline
 namespace Genshi.Props.C09
 open Genshi Genshi.Output
@@ -313,6 +315,48 @@ theorem strip_only_whitespace_partial (m : Method) (cache dropd : Bool) (dt : Op
     (∀ x, (wsNorm x).Sublist x ∧ (wsNorm x).filter (fun c => !wsChar c) = x.filter (fun c => !wsChar c)) :=
   ⟨strip_is_norm_of_runs m cache dropd dt s, (merge_only_unobservable_partial m cache dropd dt s hag).symm,
    fun _ _ => rfl, Output.wsNorm_deletes_only_ws⟩
+
+/-- The normal form of a whole text absorbs the normal form of any part of it. -/
+theorem wsNorm_absorbs (A R B : Str) : wsNorm (A ++ (wsNorm R ++ B)) = wsNorm (A ++ (R ++ B)) :=
+  wsNorm_absorb A R B
+
+theorem renderWith_rel (n1 n2 : Bool → Str → Str) (h : ∀ p x, WsEq (n1 p x) (n2 p x)) (m : Method)
+    (dropd : Bool) (dt : Option DocTypeT) (s : Stream) :
+    OptRel WsEq (renderWith n1 m false dropd dt s) (renderWith n2 m false dropd dt s) := by
+  have hr := wsFilterG_rel n1 n2 h (wsCfg m) (emptyTag none s) {}
+  have hf := flatten_rel hr (flatInit m)
+  unfold renderWith
+  cases h1 : flatten false (flatInit m) (wsFilterG n1 (wsCfg m) {} (emptyTag none s)) <;>
+    cases h2 : flatten false (flatInit m) (wsFilterG n2 (wsCfg m) {} (emptyTag none s)) <;>
+    simp_all [OptRel]
+  cases dt with
+  | none => exact loop_rel m ⟨dropd⟩ hf {}
+  | some d => exact loop_rel m ⟨dropd⟩ (docTypeInsert_rel d hf) {}
+
+/-- The formulation of DESIGN.md: the outputs with and without whitespace stripping have the same
+    white-space normal form (`wsNorm` = delete `[ \t]+` before line feeds, then collapse runs of line
+    feeds, applied to the whole output), for every method, cache setting, doctype option and
+    `drop_xml_decl` — a corollary of `strip_only_whitespace_partial` and the absorption lemma; it says
+    less (it ignores that preserved space is left alone).  Partial for html as there
+    (`NoescapeAgreeS`). -/
+theorem strip_only_whitespace_global_partial (m : Method) (cache dropd : Bool) (dt : Option DocTypeT)
+    (s : Stream) (hag : NoescapeAgreeS m s) :
+    OptRel (fun a b => wsNorm a = wsNorm b)
+      (render m { strip := true, cache := cache, doctype := dt, dropXmlDecl := dropd } s)
+      (render m { strip := false, cache := cache, doctype := dt, dropXmlDecl := dropd } s) := by
+  rw [strip_is_norm_of_runs, ← merge_only_unobservable_partial m cache dropd dt s hag]
+  have hc : ∀ (n : Bool → Str → Str), renderWith n m cache dropd dt s = renderWith n m false dropd dt s := by
+    intro n; cases cache
+    · rfl
+    · simp only [renderWith, flatten_cache_irrelevant, serCache_eq_serNoCache]
+  rw [hc stdNorm, hc idNorm]
+  have := renderWith_rel stdNorm idNorm wsEq_stdNorm m dropd dt s
+  cases h1 : renderWith stdNorm m false dropd dt s <;> cases h2 : renderWith idNorm m false dropd dt s <;>
+    simp_all [OptRel]
+  have := this [] []
+  simpa using this
+
+example : wsNorm ['<', 'p', '>', ' ', '\n', '\n', 'x'] = wsNorm ['<', 'p', '>', '\n', 'x'] := by decide
 
 theorem wsNorm_deletes_only_ws (x : Str) :
     (wsNorm x).Sublist x ∧ (wsNorm x).filter (fun c => !wsChar c) = x.filter (fun c => !wsChar c) :=
